@@ -358,6 +358,11 @@ func (c *channel) sendToTransport(ctx context.Context, e envelope, action string
 	c.sendMu.Lock()
 	defer c.sendMu.Unlock()
 
+	// the session may have ended while this call was waiting for its turn
+	if err := c.ensureEstablished(action); err != nil {
+		return err
+	}
+
 	if err := c.transport.Send(ctx, e); err != nil {
 		return fmt.Errorf("%v: %w", action, err)
 	}
